@@ -11,6 +11,7 @@
 //	go    go f(a, b)                                                 -> { vf, va, vb := f, a, b; verifhook.Go(site, func(){ vf(va, vb) }) }
 //	rand  math/rand top-level calls                                  -> func() T { verifhook.Yield(site); return rand.F(args) }()
 //	select  select { case <-a: A; case b <- v: B }                   -> switch verifhook.SelectPick(site, R(a), S(b)) { case 0: select { case <-a: A }; case 1: select { case b <- v: B }; default: <original> }
+//	tcpconn       c, ok := X.(*net.TCPConn)                          -> c, ok := verifhook.AsTCPConn(X)   (interface with SetLinger; simulated connections implement it)
 //	entry=F+G     func (..) F(..) {                                  -> func (..) F(..) { verifhook.Yield(site); (a scheduling point at function entry)
 //	maprange=M+N  for k, v := range M {                              -> for _, k := range verifhook.MapKeys(site, M) { v, ok := M[k]; if !ok { continue }; ...
 //	        (only selects with >= 2 communication clauses whose channel expressions are identifiers, selectors or x.Done(); not labelled; no labels in the bodies)
@@ -393,10 +394,34 @@ func (rw *rewriter) rangeStmt(rs *ast.RangeStmt) {
 
 func (rw *rewriter) collect() {
 	labelled := map[ast.Stmt]bool{}
+	twoValue := map[*ast.TypeAssertExpr]bool{}
 	ast.Inspect(rw.file, func(n ast.Node) bool {
 		switch v := n.(type) {
 		case *ast.LabeledStmt:
 			labelled[v.Stmt] = true
+		case *ast.TypeAssertExpr:
+			// rule tcpconn: X.(*net.TCPConn) -> verifhook.AsTCPConn(X) (two-value form only: the
+			// result is an interface with the TCP-specific methods the code uses, which simulated
+			// connections implement too)
+			if rw.rules["tcpconn"] && rw.netName != "" && twoValue[v] {
+				if st, ok := v.Type.(*ast.StarExpr); ok {
+					if _, ok := isPkgSel(st.X, rw.netName, "TCPConn"); ok {
+						e := &edit{lo: rw.off(v.Pos()), hi: rw.off(v.End())}
+						x := v.X
+						e.gen = func() string {
+							return hookName + ".AsTCPConn(" + rw.render(rw.off(x.Pos()), rw.off(x.End()), e) + ")"
+						}
+						rw.edits = append(rw.edits, e)
+						rw.counts["tcpconn"]++
+					}
+				}
+			}
+		case *ast.AssignStmt:
+			if len(v.Lhs) == 2 && len(v.Rhs) == 1 {
+				if ta, ok := v.Rhs[0].(*ast.TypeAssertExpr); ok {
+					twoValue[ta] = true
+				}
+			}
 		case *ast.FuncDecl:
 			if v.Body != nil && rw.entries[v.Name.Name] {
 				// rule entry=F+G: a scheduling point at the entry of the listed functions / methods
